@@ -21,6 +21,24 @@ CLAIMS = {
  "C09": dict(design="4/C09", text="TLC checks Exact/Complete/Separated for PopProve/PopVerify over all ordered key-recipe pairs and proof perturbations, plus signature-as-PoP and PoP-as-signature confusion; every transition replayed on the real library and the independent evaluator; random walks validated by TLC.",
              note="key alphabet bounded; symbolic abstraction",
              tech="TLA+ model checked by TLC; replay of every PopProve/PopVerify transition; TLC trace validation"),
+ "C08": dict(design="4/C08", text="TLC checks Recombine / ErrorClasses / ParamRange / PartialExact over every (t,n) with n<=MaxN, every sequence without repetition of every length handed to each of the three combiners, and one adversarial insertion (duplicate, zero id, rewritten id, corrupt payload, other scheme) at every position; Lagrange is evaluated over exact rationals with the polynomial coefficients as atoms. Every transition is replayed on real seeded splits (key, public key, signature byte-for-byte against the whole-key value) and re-interpolated by the evaluator; (t,n) up to 255 from the ideal layer.",
+             note="exhaustive only for n<=4 (quick) / n<=6 (thorough); larger (t,n) by shape classes from the provenance layer because 32-bit rationals overflow; symbolic abstraction",
+             tech="TLA+ model with symbolic Lagrange interpolation checked by TLC; replay of every Split/Combine/Partial* transition on the real library"),
+ "C10": dict(design="4/C10", text="TLC checks Completeness / Bound / TimeBound / NoIdentity over every scheme, challenge kind, single-component perturbation (incl. a forged identity response), timestamp class and delay class relative to the timeout, with the clock as a model variable; every transition is replayed with the virtual-clock hook so the boundaries tau-1, tau, tau+1 are hit exactly; verdicts also compared with an independent verifier and challenge derivation.",
+             note="virtual clock hook replaces SystemTime::now in two functions under --cfg blsful_verif; Hy and the curve are symbolic; MessageAugmentation incompleteness is a recorded finding (D6)",
+             tech="TLA+ model (sessions + clock) checked by TLC; replay of every Pok/PokTs transition through a clock hook"),
+ "C11": dict(design="4/C11", text="TLC checks RoundTrip / TamperRejected / WrongKey / NoIdentity over length classes x schemes x keys x adversary moves on (U, V regions, W, label, joint identity, re-sealed header); every transition replayed on real ciphertexts with V-region moves expanded to every bit and every truncation length, and compared exactly with an independent opener.",
+             note="XOF mask opaque per point; length classes not all lengths; wrong-key opening of messages of length <=1 returning the message is a recorded finding (D11)",
+             tech="TLA+ model checked by TLC; replay of every Seal/IsValid/Decrypt transition with bit-level expansion; independent reference opener"),
+ "C12": dict(design="4/C12", text="TLC checks ShareExact / ShareNoIdentity / ThresholdOpen with degree-2 symbolic coefficients f(i)*r over all (t,n)<=MaxN, all (share, key share, ciphertext) combinations incl. identity substitutions, all three schemes, every share sequence by both routes; replayed on real splits and compared with reference interpolation + open.",
+             note="(t,n) bounded (3 quick / 4 thorough); symbolic abstraction; D11 applies to sub-threshold opening of tiny messages",
+             tech="TLA+ model checked by TLC; replay of every ShareVerify/DecryptShares transition"),
+ "C13": dict(design="4/C13", text="TLC checks OpensExactly / OnlyRightSig / TamperNothing / RelabelNothing / OpensIff / NoIdentity over identifiers x schemes x keys x length classes x adversary moves on (U, V, W regions, label, K=1 re-keying) x offered signatures (whole-key, recombined from cnt of n shares, wrong id/key/scheme/label, identity, negated); replayed with every bit of V and of the touched W region and every truncation length; exact agreement with an independent opener (FO re-check).",
+             note="r = Hr(alpha, SHA256(M)) modelled as an atom; length classes; symbolic abstraction",
+             tech="TLA+ model checked by TLC; replay of every TLSeal/TLDecrypt transition with bit-level expansion; independent reference opener"),
+ "C14": dict(design="4/C14", text="TLC checks Homomorphic / ProofExact / VerifyDecryptExact / SharesExact: the proof equations are polynomial identities in the atoms (b, rho, ch) with Fiat-Shamir as a random oracle table; every single-component perturbation {add, negate, swap, zero} of (c1, c2, message_proof, blinder_proof, challenge) and verifier key; sums of <=MaxSum ciphertexts; t-of-n decryption. Replayed on the real library with all six addition forms, an independent merlin transcript verifier, and reference-made proofs.",
+             note="plaintexts {1, r-1, 2}; sums <=3 (quick) / 4 (thorough); merlin used as a primitive with labels from the spec",
+             tech="TLA+ model checked by TLC; replay of every ElGamal transition; independent transcript verifier"),
 }
 
 def main():
